@@ -121,9 +121,44 @@ let run_syntax (fixed : bool) (p : sexp) : string =
   " lint=" ^ codes_to_string (cat Syntax.lint_body) ^
   " lintspec=" ^ codes_to_string (cat Syntax.lint_spec_body)
 
+(* ---- C05 ------------------------------------------------------------------ *)
+let atoms (s : sexp) : coq_N list =
+  match s with L xs -> List.map (function A n -> intern n | _ -> failwith "atom") xs | _ -> failwith "atoms"
+let num (s : string) : coq_N = n_of_string s
+
+let rec var_stmt (s : sexp) : VarScope.stmt =
+  match s with
+  | L [A "D"; A v; us] -> VarScope.SDecl (intern v, atoms us)
+  | L [A "A"; us] -> VarScope.SUse (atoms us)
+  | L [A "G"; A l] -> VarScope.SGoto (num l)
+  | L [A "L"; A l] -> VarScope.SLabel (num l)
+  | L [A "I"; us; t] -> VarScope.SIf (atoms us, var_stmt t, None)
+  | L [A "I"; us; t; e] -> VarScope.SIf (atoms us, var_stmt t, Some (var_stmt e))
+  | L (A "B" :: ss) -> VarScope.SBlock (List.map var_stmt ss)
+  | _ -> VarScope.SNop
+
+let var_func (f : sexp) : VarScope.func =
+  match f with
+  | L (A "F" :: ps :: body) ->
+      let ret = List.concat (List.map (function L [A "R"; us] -> atoms us | _ -> []) body) in
+      { VarScope.params = atoms ps;
+        VarScope.body = List.map var_stmt (List.filter not_return body);
+        VarScope.ret = ret }
+  | _ -> failwith "func"
+
+let run_vars (p : sexp) : string =
+  match p with
+  | L (L (A "C" :: cs) :: fs) ->
+      let consts = List.map (function A n -> intern n | _ -> failwith "const") cs in
+      let funcs = List.map var_func fs in
+      "model=" ^ codes_to_string (VarScope.an_program consts funcs) ^
+      " spec=" ^ codes_to_string (VarScope.spec_program consts funcs)
+  | _ -> failwith "prog"
+
 let dispatch (stream : string) (x : sexp) : string =
   match stream with
   | "labels" -> run_labels x
+  | "vars" -> run_vars x
   | "syntax" -> run_syntax true x
   | "syntax-pinned" -> run_syntax false x
   | _ -> failwith ("unknown stream " ^ stream)
